@@ -307,6 +307,11 @@ func (c *Chunk) ReadFrom(r io.Reader) (int64, error) {
 	}
 
 	bitsForHeight := bits.Len( /* chunk height in blocks */ uint(len(c.Sections))*16 + 1)
+	for _, hm := range [][]uint64{heightmaps.MotionBlocking, heightmaps.WorldSurface} {
+		if want := calcBitStorageSize(bitsForHeight, 16*16); hm != nil && len(hm) != want {
+			return n, fmt.Errorf("height map has %d longs, expected %d", len(hm), want)
+		}
+	}
 	c.HeightMaps.MotionBlocking = NewBitStorage(bitsForHeight, 16*16, heightmaps.MotionBlocking)
 	c.HeightMaps.WorldSurface = NewBitStorage(bitsForHeight, 16*16, heightmaps.WorldSurface)
 
